@@ -53,6 +53,11 @@ impl Divert {
             .map(|p| self.compact_path_string(p))
     }
 
+    #[cfg(feature = "verif-hooks")]
+    pub fn verif_raw_target_path(&self) -> Option<Path> {
+        self.target_path.borrow().clone()
+    }
+
     pub fn has_variable_target(&self) -> bool {
         self.variable_divert_name.is_some()
     }
